@@ -20,6 +20,13 @@ CLAIMED["C01"] = {
     "technique": "Coq/Flocq proof over source-generated model + reflexivity tie + exhaustive 16-bit vm_compute correspondence",
 }
 
+CLAIMED["C14"] = {
+    "text": "Coq theorems, for any number type and every shape / argument value, over quantize_weight, quantize_activation, both quantizers, group() and the optimizer wrappers as generated from the source on every run: an accepted call returns exactly the requested qtype, axis and group size with an admissible divisor; each unsupported class of the property is a ValueError; the automatic group size of QModuleMixin.__init__ (translated, while-loop with fuel shown sufficient) is 128/96/64/32, divides the per-output count and exists only above 128. The full small cross product of configurations is run on the implementation and compared with the generated model outcome by outcome.",
+    "note": "Trusted: Coq kernel + vm_compute; translators (incl. the snippet extractor for the group-size block); coq/Lib vocabulary; harness. Theorems are axiom-free (closed under the global context). Module construction/forward is exercised on the real QLinear/QConv2d only by the audit.",
+    "design": "6/C14",
+    "technique": "Coq proof over source-generated decision code + reflexivity tie + exhaustive configuration cross product",
+}
+
 NOT_YET = {}
 
 
